@@ -8,9 +8,11 @@ import (
 )
 
 func c15Finish(w *harness.World) {
+	w.CheckHeldVals()
 	w.CheckRefLive()
 	w.ObserveAll()
 	w.CheckRefLive()
+	w.CheckHeldVals()
 	snapsFirst := harness.Choose(2, harness.ClassOp) == 1
 	w.CloseAllAndCheckRefs(snapsFirst)
 }
@@ -100,56 +102,86 @@ func c15Mixes(mon harness.Monitors, persisted bool) *WorldScenario {
 		}}
 }
 
+func c15Letters(w *harness.World) []Letter {
+	var ls []Letter
+	if !w.Closed {
+		if _, ok := w.Colls["x"]; ok {
+			ls = append(ls,
+				Letter{"Set(a,1)", func(w *harness.World) { w.SetItem("x", kA, 1, bs("v")) }},
+				Letter{"Set(b,2)", func(w *harness.World) { w.SetItem("x", kB, 2, bs("w")) }},
+				Letter{"Set(a,3)", func(w *harness.World) { w.SetItem("x", kA, 3, bs("")) }},
+				Letter{"Set(a,-1) rejected", func(w *harness.World) { w.SetItem("x", kA, -1, bs("n")) }},
+				Letter{"Set(b,nil) rejected", func(w *harness.World) { w.SetItem("x", kB, 1, nil) }},
+				Letter{"Del(a)", func(w *harness.World) { w.Delete("x", kA) }},
+				Letter{"Del(b)", func(w *harness.World) { w.Delete("x", kB) }},
+				Letter{"Evict", func(w *harness.World) { w.Evict("x") }},
+				Letter{"Get(a)", func(w *harness.World) { w.Get("x", kA) }},
+				Letter{"GetItem(a,v)", func(w *harness.World) { w.GetItem("x", kA, true) }},
+				Letter{"GetItem(b,-)", func(w *harness.World) { w.GetItem("x", kB, false) }},
+				Letter{"Exist(a)", func(w *harness.World) { w.Exist("x", kA) }},
+				Letter{"Min", func(w *harness.World) { w.MinMax("x", false, true) }},
+				Letter{"Asc(all)", func(w *harness.World) { w.Visit("x", harness.APIAscend, []byte{}, true, -1) }},
+				Letter{"DescEx(stop0)", func(w *harness.World) { w.Visit("x", harness.APIDescendEx, bs("zz"), false, 0) }},
+				Letter{"Iter(stop0)", func(w *harness.World) { w.Visit("x", harness.APIIterAscend, []byte{}, true, 0) }},
+				Letter{"Len", func(w *harness.World) { w.LenOp("x") }},
+				Letter{"KeyVisit{GetItem(b,v)}", func(w *harness.World) {
+					w.VisitNestedMode("x", "GetItem(b,v)", false, 0, func() { w.GetItem("x", kB, true) })
+				}},
+				Letter{"KeyVisit{Evict}", func(w *harness.World) {
+					w.VisitNestedMode("x", "Evict", false, 0, func() { w.Evict("x") })
+				}},
+				Letter{"CopyTo(1)", func(w *harness.World) { w.CopyTo(-1, 1) }},
+				Letter{"BlockEx", func(w *harness.World) { w.BlockVisit("x", true) }},
+				Letter{"Random", func(w *harness.World) { w.RandomVisit("x") }},
+				Letter{"RemoveColl(x)", func(w *harness.World) { w.RemoveCollection("x") }})
+		}
+		ls = append(ls,
+			Letter{"SetColl(x)", func(w *harness.World) { w.SetCollection("x", "nil") }},
+			Letter{"Set(w.a)", func(w *harness.World) {
+				if _, ok := w.Colls["w"]; !ok {
+					w.SetCollection("w", "nil")
+				}
+				w.SetItem("w", kA, 1, bs("wa"))
+			}},
+			Letter{"Flush", func(w *harness.World) { w.Flush() }},
+			Letter{"Reopen", func(w *harness.World) { w.Reopen(true); ensureX(w) }})
+	}
+	return append(ls, snapLetters(w, 1, false)...)
+}
+
+// c15Persisted: the C15 alphabet from a non-initial state - items a(1), b(2)
+// (b is the root, a its left child) flushed and then cached / evicted /
+// re-opened, so that two letters reach "look up or evict the parent from
+// inside a key-only visit of persisted items".
+func c15Persisted(name string, depth int, cbMask int) *SeqProfile {
+	return &SeqProfile{Name: name, Keys: [][]byte{kA, kB}, Depth: depth, Finish: c15Finish, CBMask: cbMask,
+		Mon: harness.Monitors{RefCount: true}, Letters: c15Letters,
+		Init: func(w *harness.World) {
+			w.SetCollection("x", "nil")
+			w.SetItem("x", kA, 1, bs("va"))
+			w.SetItem("x", kB, 2, bs("vb"))
+			w.Flush()
+			switch harness.Choose(3, harness.ClassOp) {
+			case 0:
+				w.Hist = append(w.Hist, "flushed")
+			case 1:
+				w.Hist = append(w.Hist, "flushed+evicted")
+				w.Evict("x")
+			case 2:
+				w.Hist = append(w.Hist, "reopened")
+				w.Reopen(true)
+			}
+		}}
+}
+
 func c15Profiles(tier string) []Profile {
 	d := 4
 	if tier == "thorough" {
 		d = 5
 	}
 	p := &SeqProfile{Name: "refcount", Keys: [][]byte{kA, kB}, Depth: d, Init: initX, Finish: c15Finish,
-		Mon: harness.Monitors{RefCount: true},
-		Letters: func(w *harness.World) []Letter {
-			var ls []Letter
-			if !w.Closed {
-				if _, ok := w.Colls["x"]; ok {
-					ls = append(ls,
-						Letter{"Set(a,1)", func(w *harness.World) { w.SetItem("x", kA, 1, bs("v")) }},
-						Letter{"Set(b,2)", func(w *harness.World) { w.SetItem("x", kB, 2, bs("w")) }},
-						Letter{"Set(a,3)", func(w *harness.World) { w.SetItem("x", kA, 3, bs("")) }},
-						Letter{"Del(a)", func(w *harness.World) { w.Delete("x", kA) }},
-						Letter{"Del(b)", func(w *harness.World) { w.Delete("x", kB) }},
-						Letter{"Evict", func(w *harness.World) { w.Evict("x") }},
-						Letter{"GetItem(a,v)", func(w *harness.World) { w.GetItem("x", kA, true) }},
-						Letter{"GetItem(b,-)", func(w *harness.World) { w.GetItem("x", kB, false) }},
-						Letter{"Exist(a)", func(w *harness.World) { w.Exist("x", kA) }},
-						Letter{"Min", func(w *harness.World) { w.MinMax("x", false, true) }},
-						Letter{"Asc(all)", func(w *harness.World) { w.Visit("x", harness.APIAscend, []byte{}, true, -1) }},
-						Letter{"DescEx(stop0)", func(w *harness.World) { w.Visit("x", harness.APIDescendEx, bs("zz"), false, 0) }},
-						Letter{"Iter(stop0)", func(w *harness.World) { w.Visit("x", harness.APIIterAscend, []byte{}, true, 0) }},
-						Letter{"Len", func(w *harness.World) { w.LenOp("x") }},
-						Letter{"KeyVisit{GetItem(b,v)}", func(w *harness.World) {
-							w.VisitNestedMode("x", "GetItem(b,v)", false, 0, func() { w.GetItem("x", kB, true) })
-						}},
-						Letter{"KeyVisit{Evict}", func(w *harness.World) {
-							w.VisitNestedMode("x", "Evict", false, 0, func() { w.Evict("x") })
-						}},
-						Letter{"CopyTo(1)", func(w *harness.World) { w.CopyTo(-1, 1) }},
-						Letter{"BlockEx", func(w *harness.World) { w.BlockVisit("x", true) }},
-						Letter{"Random", func(w *harness.World) { w.RandomVisit("x") }},
-						Letter{"RemoveColl(x)", func(w *harness.World) { w.RemoveCollection("x") }})
-				}
-				ls = append(ls,
-					Letter{"SetColl(x)", func(w *harness.World) { w.SetCollection("x", "nil") }},
-					Letter{"Set(w.a)", func(w *harness.World) {
-						if _, ok := w.Colls["w"]; !ok {
-							w.SetCollection("w", "nil")
-						}
-						w.SetItem("w", kA, 1, bs("wa"))
-					}},
-					Letter{"Flush", func(w *harness.World) { w.Flush() }},
-					Letter{"Reopen", func(w *harness.World) { w.Reopen(true); ensureX(w) }})
-			}
-			return append(ls, snapLetters(w, 1, false)...)
-		}}
+		Mon: harness.Monitors{RefCount: true}, Letters: c15Letters}
+	pp := c15Persisted("refcount-from-persisted", d-2, 0)
 	conc := &WorldScenario{Name: "reader-vs-overwrite", Mon: harness.Monitors{RefCount: true}, Keys: [][]byte{kA, kB},
 		Desc: "reference counting beside a writer: reader [GetItem(a) with value, release] || mutator [Set(a) overwrite, Delete(b)] on a flushed and partly evicted collection; counting callbacks with scrubbing of released items",
 		Setup: func(w *harness.World) {
@@ -174,7 +206,9 @@ func c15Profiles(tier string) []Profile {
 	faulted := Profile{Name: "refcount-after-faults", Exec: OnlyOracles(c07ExecMon(1, 1, false, harness.Monitors{RefCount: true}), "refcount", "observe", "model"),
 		Budget: map[int]int{1: 0, 2: 0, 3: 1}, ShardLevel: 3,
 		Rule: "reference counting across failed calls: 5 initial stores x every single operation x one failing file call at every index (retried or not), then Set, Flush, full read battery, Reopen, Close; counts never negative, no use after release (released items are scrubbed); a zero balance is not demanded after a failed call"}
-	return []Profile{conc.Profile(2), mp, mpp, faulted, p.Profile(fmt.Sprintf("every history of length <= %d over Set/Delete/Evict, GetItem (both value modes), Exist, MinItem, ascending visit, descending Ex visit with early stop, iterator with early close, key-only visits whose callback looks up another key with its value or evicts, CopyTo (two collections), Len, block and random visits, RemoveCollection, SetCollection (new/existing), Flush, Reopen, Snapshot / read / close of a snapshot, then closing snapshots and store in both orders; counting ItemAlloc/ItemAddRef/ItemDecRef callbacks: no count below zero, every item handed to a visitor or the caller and every cached item reachable from an open handle has a positive count, and after closing everything all counts are zero; an item whose count reaches zero is scrubbed (key and value overwritten) and any later reference to it is reported, so a use after release shows as a wrong result", d))}
+	return []Profile{conc.Profile(2), mp, mpp, faulted,
+		pp.Profile(fmt.Sprintf("initial state: a(1), b(2) flushed (b is the root, a its left child) and then {cached, evicted, re-opened}; every history of length <= %d over the same alphabet and oracles as profile refcount", d-2)),
+		p.Profile(fmt.Sprintf("every history of length <= %d over Set/Delete/Evict, SetItem of a rejected item (negative priority, nil value), Get (the value it returns stays intact for the rest of the history), GetItem (both value modes), Exist, MinItem, ascending visit, descending Ex visit with early stop, iterator with early close, key-only visits whose callback looks up another key with its value or evicts, CopyTo (two collections), Len, block and random visits, RemoveCollection, SetCollection (new/existing), Flush, Reopen, Snapshot / read / close of a snapshot, then closing snapshots and store in both orders; counting ItemAlloc/ItemAddRef/ItemDecRef callbacks: no count below zero, every item handed to a visitor or the caller and every cached item reachable from an open handle has a positive count, and after closing everything all counts are zero; an item whose count reaches zero is scrubbed (key and value overwritten) and any later reference to it is reported, so a use after release shows as a wrong result", d))}
 }
 
 func init() {
